@@ -242,6 +242,15 @@ def run_job(job, unit, workdir, log=print):
         if rc != 0:
             raise Undecided('goto-cc failed (weave/compile error): ' + (err + out)[-1500:])
         cur = gb0
+        if job.get('pre_unwindset'):
+            # loops closed by their constant bound are unwound BEFORE contract instrumentation (dfcc sizes its write sets statically)
+            gbu = os.path.join(jd, 'a_unwound.gb')
+            cmd = ['goto-instrument', '--unwindset', job['pre_unwindset'], '--unwinding-assertions', cur, gbu]
+            rc, out, err, dt = sh(cmd, 600)
+            res.cmds.append(' '.join(cmd))
+            if rc != 0:
+                raise Undecided('goto-instrument pre-unwind failed: ' + (err + out)[-1500:])
+            cur = gbu
         # 2. instrument
         if mode == 'dfcc':
             gb1 = os.path.join(jd, 'b.gb')
@@ -322,6 +331,10 @@ def run_job(job, unit, workdir, log=print):
     except LowerError as e:
         res.status = 'undecided'
         res.reason = 'extraction-broken: ' + str(e)
+    except Exception as e:
+        import traceback
+        res.status = 'undecided'
+        res.reason = 'internal error: %r %s' % (e, traceback.format_exc()[-800:])
     res.seconds = time.time() - t_start
     return res
 
